@@ -48,10 +48,20 @@ pub fn is_active() -> bool {
     WORLD.with(|w| w.borrow().is_some())
 }
 
+/// where the harness wants to be told the simulated time (it makes `std::time::Instant` follow it, see sim/src/clock.rs)
+static CLOCK_SINK: std::sync::OnceLock<fn(u64)> = std::sync::OnceLock::new();
+
+pub fn set_clock_sink(f: fn(u64)) {
+    let _ = CLOCK_SINK.set(f);
+}
+
 pub fn with<R>(f: impl FnOnce(&mut World) -> R) -> R {
     WORLD.with(|w| {
         let mut guard = w.borrow_mut();
         let world = guard.as_mut().expect("simulated world is not installed");
+        if let Some(sink) = CLOCK_SINK.get() {
+            sink(world.now_ns());
+        }
         f(world)
     })
 }
